@@ -63,15 +63,18 @@ fn run(name: &str, args: &Value) -> Value {
         "c10_graceful_stop" => c10::graceful_stop(args),
         "c11_limits" => c11::limits(args),
         "c12_ws_batch" => c12::ws_batch(args),
+        "c12_ws_batch_order" => c12::ws_batch_order(args),
         "c12_http_batch" => c12::http_batch(args),
         "c02_batches" => c02::batches(args),
         "c02_ws_batch_with_subscription" => c02::ws_batch_with_subscription(args),
         "c03_fast_reply" => c03::fast_reply(args),
         "c03_subid_collision" => c03::subid_collision(args),
+        "c03_mixed_frame" => c03::mixed_frame(args),
         "c04_notifications" => c04::notifications(args),
         "c05_array_vs_single" => c05::array_vs_single(args),
         "c05_close_in_array" => c05::close_in_array(args),
         "c05_drop_full_queue" => c05::drop_full_queue(args),
+        "c05_close_reason" => c05::close_reason(args),
         "c13_registry" => c13::registry(args),
         "c17_roundtrip" => c17::roundtrip(args),
         "c15_response" => c15::response(args),
@@ -80,8 +83,10 @@ fn run(name: &str, args: &Value) -> Value {
         "c14_ports" => c14::ports(args),
         "c14_single_entry" => c14::single_entry(args),
         "c09_server_bytes" => c09::server_bytes(args),
+        "c09_cause_for_everyone" => c09::cause_for_everyone(args),
         "c09_send_fails_on_unsubscribe" => c09::send_fails_on_unsubscribe(args),
         "c08_append" => c08::append(args),
+        "c08_batch_total" => c08::batch_total(args),
         "c08_response" => c08::response(args),
         "c08_error_payload" => c08::error_payload(args),
         other => {
